@@ -452,3 +452,49 @@ def rule_validate_vector(repo, rep):
     rep.unknown(R, key, site(f), unk)
   else:
     rep.derived(R, key, site(f))
+
+
+def rule_no_cross_dtype_cast(repo, rep):
+  R = 'DTYPE:no-cast-to-another-values-dtype'
+  rep.rule(R, 'no conversion anywhere in the package takes its target dtype '
+           'from a different value (dtype=<other>.dtype, '
+           '.astype(<other>.dtype)): when <other> is an integer array the '
+           'converted floating-point values are truncated, so an int list / '
+           'array and its float64 copy no longer give the same result')
+  n = 0
+  bad = 0
+  for f in repo.all_functions():
+    for c in ast.walk(f.node):
+      if not isinstance(c, ast.Call):
+        continue
+      cands = [k.value for k in c.keywords if k.arg == 'dtype']
+      if isinstance(c.func, ast.Attribute) and c.func.attr == 'astype' and \
+              c.args:
+        cands.append(c.args[0])
+      for v in cands:
+        if not (isinstance(v, ast.Attribute) and v.attr == 'dtype'):
+          continue
+        n += 1
+        src = ast.unparse(v.value)
+        # the array being converted / the prototype of the result
+        own = []
+        if isinstance(c.func, ast.Attribute):
+          own.append(ast.unparse(c.func.value))
+        own += [ast.unparse(a) for a in c.args[:1]]
+        fname = ast.unparse(c.func)
+        if src in own or fname.endswith(('finfo', 'iinfo')):
+          rep.derived(R, '%s:%s' % (f.key, ast.unparse(c)[:50]), site(f, c))
+          continue
+        # allocation of a result buffer in the dtype of its future content
+        if fname.rsplit('.', 1)[-1] in ('zeros', 'empty', 'ones', 'full',
+                                        'zeros_like', 'empty_like',
+                                        'full_like', 'eye', 'arange'):
+          rep.derived(R, '%s:%s' % (f.key, ast.unparse(c)[:50]), site(f, c))
+          continue
+        bad += 1
+        rep.refuted(R, '%s:%s' % (f.key, ast.unparse(c)[:50]), site(f, c),
+                    '%s converts to the dtype of %s: floating-point values '
+                    'are truncated when %s is an integer array'
+                    % (ast.unparse(c)[:70], src, src))
+  if n == 0:
+    rep.derived(R, 'package', '')
